@@ -127,26 +127,34 @@ CHECKS = {
         note=NOTE_COMMON + "Partial: 'an accepting filter verdict on arbitrary floats is the exact sign' (Shewchuk bound) is oracle-checked, not proved.",
     ),
     "C11": dict(
-        technique="Lean 4 theorems over linearly ordered fields (LocatePointInRing = even-odd rule for every closed ring given an exact determinant sign: per-edge case analysis + induction over the ring; crossing rule, boundary rule, left-edge shortcut, Devillers permutation and reduction steps) + bit-exact correspondence + exact rational even-odd oracle with exhaustive small grids",
+        technique="Lean 4 theorems over linearly ordered fields (SignOfDet2x2 exact including its Euclidean loop and termination: loop invariant + descent on a lattice index; LocatePointInRing = even-odd rule for every closed ring: per-edge case analysis + induction over the ring; unconditional over the rationals) + bit-exact correspondence + exact rational even-odd oracle with exhaustive small grids",
         text="Theorems: the counter's sign-adjusted determinant test is exactly 'the edge meets the ray strictly right of the point' (C11_crossing_sign), a zero "
              "determinant on a straddling edge is exactly 'the point is on the edge' (C11_zero_det_on_edge), edges strictly left never count "
              "(C11_left_edge_never_counts), and the permutation and reduction steps of Devillers' routine preserve sign*determinant. C11_locate_eq_spec: for every "
              "linearly ordered field, every closed ring and every point, given that the determinant-sign routine returns the exact sign, LocatePointInRing returns "
              "boundary iff the point lies on some edge, and otherwise interior iff an odd number of edges cross the ray to its right - through every early exit of "
              "countSegment (edges left of the point, horizontal edges, vertices level with the point, the early return at the first boundary hit; detE_sound, "
-             "detE_complete, incE_spec, locateLoop_eq). The whole routine "
+             "detE_complete, incE_spec, locateLoop_eq). C11_signOfDet2x2_exact: in every ordered field with a floor, for entries whose first column lies on a "
+             "lattice g*Z and fuel at least the larger lattice index, the routine (zero tests, the eight-way permutation, the x-sign stage and the Euclidean loop with "
+             "each of its early returns) returns the sign of x1*y2-x2*y1; the loop invariant is 'entries positive, determinant = carried sign * original', the "
+             "lattice index of x1 strictly decreases, so the Go loop terminates. C11_locate_exact combines the two; C11_locate_exact_rat: for every closed ring of "
+             "rational points and every rational point there is a fuel from which on the model's answer is the even-odd rule - no hypothesis left. The whole routine "
              "(SignOfDet2x2 + counter) is mirrored in Lean Float and compared with Go and with the exact even-odd rule on every triangle of the 4x4 grid "
              "against every grid point each run, plus random rings up to 2^26.",
-        note=NOTE_COMMON + "Partial: the exactness of SignOfDet2x2's Euclidean main loop is a hypothesis of C11_locate_eq_spec (its permutation stage and reduction steps are proved; the loop as a whole is oracle-checked, exhaustively on small grids); float inputs are exact rationals, so the exact-arithmetic theorem applies to them given that hypothesis.",
+        note=NOTE_COMMON + "Partial: the theorems are about exact arithmetic (every float64 input is a rational, so they state what the answer must be); that the float64 run of the loop (x2 - k*x1 in floating point) makes the same decisions is the bit-exact mirror plus the exact oracle, not a theorem.",
     ),
     "C12": dict(
-        technique="Lean 4 theorems over linearly ordered fields (soundness of the same-side exits, homogeneous-coordinate point lies on both lines, translation invariance of the formula) + bit-exact correspondence + exact rational point-set oracle with exhaustive small grids",
+        technique="Lean 4 theorems over linearly ordered fields about the modelled RobustLineIntersector (NoIntersection <=> disjoint; reported end points and overlap ends lie on both segments; a proper crossing is answered with the carriers' common point: case analysis over every branch, parametrisation of collinear segments) + bit-exact correspondence + exact rational point-set oracle with exhaustive small grids",
         text="Theorems: both ends strictly on one side of the other carrier implies disjoint (C12_same_side_disjoint), the homogeneous-coordinate quotient is on "
              "both carrier lines whenever the weight is non-zero (C12_hcoords_on_both_lines) and the envelope-centre normalisation cancels exactly "
-             "(C12_hcoords_translation). The whole robust routine (classification, endpoint copying order, collinear case analysis, computed point with "
+             "(C12_hcoords_translation). About the model function itself, with the orientation index the exact sign: C12_robust_none_sound (envelope test, both "
+             "same-side exits and the six-way collinear analysis never say NoIntersection for segments with a common point), C12_robust_points_sound (the touching "
+             "end point chosen in each of the six selection branches, and both ends of a collinear overlap, lie on both closed segments), C12_robust_proper_sound "
+             "(all arithmetic exact: the answer is 'point' with exactly the carriers' common point, which passes both envelope tests so the central-endpoint "
+             "fallback is not taken, and lies on both segments), C12_robust_none_iff_disjoint. The whole robust routine (classification, endpoint copying order, collinear case analysis, computed point with "
              "fallbacks) is mirrored and compared bit for bit; the oracle intersects the two point sets in exact arithmetic: type, exact shared endpoint, "
              "exact overlap endpoints, point accuracy on integer grids, and agreement of the non-robust strategy on representable inputs.",
-        note=NOTE_COMMON + "Partial: the collinear case analysis and the rounding distance of the computed point are oracle-checked (exhaustively on the 3x3 grid), not proved.",
+        note=NOTE_COMMON + "Partial: point-versus-collinear for a one-point overlap and the rounding distance of the float computation (bound 16 eps M kappa) are oracle-checked, not proved; the theorems are about exact arithmetic.",
     ),
     "C15": dict(
         technique="Lean 4 theorems over linearly ordered fields (clamped-projection rule attains the minimum over the segment in 2D and 3D; Lagrange identity for the |s|L shortcut; direction symmetry) + bit-exact Float correspondence + exact rational minimum-distance oracle",
